@@ -188,6 +188,28 @@ def run(prog: Program, res: Result, tier: str) -> None:
     else:
         res.bad("R2", fn, call, "kernel nsubs is not the channel count recorded in the output header", key=key)
     op.check_accumulators(res, "R3", lp, call, k, consumed_in_loop=True)
+    # a sub-band count that does not divide nchans makes `arange(nchans) // (nchans // nsub)` exceed nsub - 1: the kernel then adds into the
+    # NEXT sample's cells (a race between prange iterations) and past the end of the buffer.  It must be rejected before the output exists (F52).
+    from ..pathcond import path_conditions as _pc7, rejection as _rej7
+    pcs = _pc7(op.flow)
+    nsub_txt = norm(b.get("nsubs", ast.Constant(None)))
+
+    def divides_nsub(e, pol):
+        t = e
+        if isinstance(t, ast.Compare) and len(t.ops) == 1 and norm(t.comparators[0]) == "0" and isinstance(t.ops[0], (ast.Eq, ast.NotEq)):
+            pol = pol if isinstance(t.ops[0], ast.Eq) else not pol
+            t = t.left
+        else:
+            pol = not pol
+        return pol and isinstance(t, ast.BinOp) and isinstance(t.op, ast.Mod) and norm(t.left) == "self.header.nchans" and norm(t.right) == nsub_txt
+    preps_s = prep_calls(fn)
+    facts_s = [pcs.truth(p_, divides_nsub) for p_ in preps_s]
+    key = "subband:nsub-guard"
+    if preps_s and all(f_ is not None and _rej7(pcs, f_) is not None for f_ in facts_s):
+        res.ok("R4", fn, preps_s[0], "a sub-band count that does not divide nchans is rejected before the output file is created", key=key)
+    else:
+        res.bad("R4", fn, fn.node, "no guard rejects a sub-band count that does not divide nchans: the channel-to-sub-band map then reaches nsub and the kernel "
+                "writes into the next sample's cells and past the end of its buffer", construct="subband", key=key)
     out = b.get("outarray")
     G, S, stride = op.stride(lp)
     nsub = op.poly(b["nsubs"], call) if "nsubs" in b else Poly.sym("?")
@@ -305,7 +327,7 @@ def run(prog: Program, res: Result, tier: str) -> None:
     res.floor("R1", 5)
     res.floor("R2", 19)
     res.floor("R3", 1)
-    res.floor("R4", 3)
+    res.floor("R4", 4)
     res.floor("R5", 10)
 
 
@@ -422,6 +444,8 @@ def _scratch_big_enough(res, op: StreamOp, fn: FuncInfo, lp, out, tag: str, nch:
 B = "sigpyproc/base.py"
 K = "sigpyproc/core/kernels.py"
 MUTANTS = [
+    {"id": "c07-revert-F52", "file": "sigpyproc/base.py", "expect": "C07.R4",
+     "old": "        if nsub < 1 or self.header.nchans % nsub != 0:\n            msg = f\"Number of sub-bands must divide nchans ({self.header.nchans}): {nsub}\"\n            raise ValueError(msg)\n", "new": ""},
     {"id": "c07-revert-F38", "file": "sigpyproc/base.py", "expect": "C07.R2",
      "old": "        chan_delays = self.header.get_dmdelays(dm)\n        # Channels that lead the reference (ascending band, negative DM) have\n        # negative delays: count them from the earliest channel instead\n        min_delay = min(0, int(chan_delays.min()))\n        chan_delays = chan_delays - min_delay\n        max_delay = int(chan_delays.max())\n        gulp = max(2 * max_delay, gulp)\n        # must be memset to zero in c code", "new": "        chan_delays = self.header.get_dmdelays(dm)\n        min_delay = 0\n        max_delay = int(chan_delays.max())\n        gulp = max(2 * max_delay, gulp)\n        # must be memset to zero in c code"},
     {"id": "c07-invert-whole-block", "file": K, "expect": "C07.R1",
